@@ -73,6 +73,16 @@ def generate(plan) -> None:
     k["split_rate"] = 0.0
     # when the controller's first sync cycle is heard: while Gateway.start() is still under way (port open, not yet returned), or later
     k["sync_first"] = r.choice([0.0, 0.004, 0.012, 0.03, 1.0, 1.0, 60.0])
+    # the devices themselves are on the air too (own stream): TRVs report demand / setpoint / window state to the controller with
+    # their zone index, sensors and relays announce themselves, and a neighbour's controller with its own TRVs uses the same zone
+    # indexes.  Consistent with the configuration -- so nothing the controller did not say may appear, and nothing may go missing.
+    ra = plan.rng("gen/ambient")
+    k["ambient"] = ra.random() < 0.35
+    k["ambient_period"] = ra.choice([300.0, 900.0, 3600.0])
+    k["neighbour"] = ra.random() < 0.6
+    # the application saves the state now and then, as Home Assistant does (get_state pauses and resumes the engine)
+    k["snapshots"] = sorted(round(ra.choice([5.0, 40.0, 300.0, 2000.0, 20000.0, 80000.0]) * ra.uniform(0.5, 1.5), 1)
+                            for _ in range(ra.choice([0, 0, 1, 2, 4])))
     plan.d["ops"] = []
 
 
@@ -112,6 +122,49 @@ def facts(s: dict) -> set:
     if s["app"] is not None:
         out.add(("app", s["app"]))
     return out
+
+
+NBR = "01:199999"
+
+
+async def ambient(hub, cfg: dict, period: float, neighbour: bool, count) -> None:
+    """Frames in the shapes the corpus shows for each device type (written from those lines, not by the library)."""
+    n = 0
+    while True:
+        await asyncio.sleep(period)
+        n += 1
+        out = []
+        for z, zc in cfg["zones"].items():
+            for a in zc["actuators"]:
+                if a[:2] == "04":
+                    out += [f" I --- {a} --:------ {CTL} 3150 002 {z}{(n * 7) % 200:02X}",
+                            f" I --- {a} --:------ {a} 30C9 003 00{0x0700 + n % 200:04X}",
+                            f" I --- {a} --:------ {CTL} 2309 003 {z}{0x0640 + 50 * (n % 8):04X}",
+                            f" I --- {a} --:------ {CTL} 12B0 003 {z}0000",
+                            f" I --- {a} --:------ {CTL} 1060 003 {z}FF01"]
+                elif a[:2] == "13":
+                    out += [f" I --- {a} --:------ {a} 3EF0 003 00{(n % 2) * 200:02X}FF"]
+            sn = zc["sensor"]
+            if sn and sn[:2] in ("03", "12", "22", "34") :
+                out += [f" I --- {sn} --:------ {sn} 30C9 003 00{0x0780 + n % 100:04X}"]
+        dhw = cfg.get("dhw") or {}
+        if dhw.get("sensor"):
+            out += [f" I --- {dhw['sensor']} --:------ {dhw['sensor']} 1260 003 00{0x1100 + n % 200:04X}"]
+        for key in ("dhw_valve", "htg_valve"):
+            if dhw.get(key):
+                out += [f" I --- {dhw[key]} --:------ {dhw[key]} 3EF0 003 0000FF"]
+        if cfg.get("app") and cfg["app"][:2] == "13":
+            out += [f" I --- {cfg['app']} --:------ {cfg['app']} 3EF0 003 00C8FF", f" I --- {cfg['app']} --:------ {cfg['app']} 3B00 002 00C8"]
+        if neighbour:  # the house next door: same zone indexes, its own devices
+            out += [f" I --- {NBR} --:------ {NBR} 1F09 003 FF0A00",
+                    f" I --- {NBR} --:------ {NBR} 30C9 009 0007D00107D00207D0",
+                    f" I --- 04:199001 --:------ {NBR} 3150 002 00{(n * 3) % 200:02X}",
+                    f" I --- 04:199002 --:------ {NBR} 2309 003 0107D0",
+                    f" I --- 04:199003 --:------ {NBR} 12B0 003 020000",
+                    f" I --- 13:199004 --:------ 13:199004 3EF0 003 0000FF"]
+        for i, f in enumerate(out):
+            hub.broadcast(f, 0.02 * i)
+        count(len(out))
 
 
 async def run(ctx) -> None:
@@ -163,6 +216,19 @@ async def run(ctx) -> None:
         sync = loop.create_task(ctl.sync_cycle(185.0, first=sf))
     else:
         ctx.probe("controller_first_heard_during_start")
+    amb = None
+    if k("ambient", False):
+        amb = loop.create_task(ambient(hub, cfg, k("ambient_period", 240.0), k("neighbour", False),
+                                       lambda n: hub.count("ambient_device_frames", n)))
+    def snapshot():
+        try:
+            gwy.get_state()
+            hub.count("snapshot_during_discovery")
+        except Exception as err:  # noqa
+            ctx.violate("C12", "snapshot_raised", exc_sig(err), f"get_state() during discovery raised {type(err).__name__}: {err}")
+
+    for ts in k("snapshots", []):
+        loop.call_at(t0 + ts, snapshot)
     horizon = k("hours", 49) * 3600.0
     seen: set = set()
     t_learned: dict = {}
@@ -212,6 +278,8 @@ async def run(ctx) -> None:
             ctx.probe("filled_in_at_a_later_round")
     ctx.probe("rqs_written", len(ctl.rq_log))
     sync.cancel()
+    if amb is not None:
+        amb.cancel()
     await gwy.stop()
     await asyncio.sleep(0.1)
     gc.collect()
